@@ -276,7 +276,7 @@ M("C08", "titan-size-default-zero", "breaking",
   [("protocol/request.py", "TitanRequest.from_line", "        if \"size\" not in params:\n            raise ValueError(\"Titan URL must contain size parameter\")\n", "        params.setdefault(\"size\", \"0\")\n")],
   "V2:protocol.request:TitanRequest.from_line:titan-guard:no size parameter")
 M("C08", "titan-bad-size-as-zero", "breaking",
-  [("protocol/request.py", "TitanRequest.from_line", "            raise ValueError(f\"Invalid size parameter: {params['size']}\") from e\n", "            size = 0\n")],
+  [("protocol/request.py", "TitanRequest.from_line", "            raise ValueError(f\"Invalid size parameter: {size_text}\")\n", "            size_text = \"0\"\n")],
   "V2:protocol.request:TitanRequest.from_line:titan-guard:integer-size")
 M("C08", "reject-status-50", "breaking",
   [(P, "GeminiServerProtocol._handle_gemini_request", "self._send_error_response(StatusCode.BAD_REQUEST, str(e))", "self._send_error_response(StatusCode.PERMANENT_FAILURE, str(e))")],
@@ -960,7 +960,7 @@ M("C18", "charset-only-second-part", "breaking",
   [(RSP, "GeminiResponse.charset", "        for part in parts[1:]:  # Skip the MIME type itself\n", "        for part in parts[1:2]:  # Skip the MIME type itself\n")],
   "Z11:protocol.response:GeminiResponse.charset:charset-fixed-position")
 M("C13", "client-charset-first-param-only", "breaking",
-  [(CP, CL, "                    for part in (self.meta or \"\").split(\";\"):\n                        part = part.strip()\n                        if part.lower().startswith(\"charset=\"):\n                            charset = part.split(\"=\", 1)[1].strip().strip(\"\\\"'\")\n",
+  [(CP, CL, "                    for part in (self.meta or \"\").split(\";\"):\n                        part = part.strip()\n                        if part.lower().startswith(\"charset=\"):\n                            charset = part.split(\"=\", 1)[1].strip().strip(\"\\\"'\")\n                            break\n",
     "                    part = (self.meta or \"\").split(\";\", 2)[1].strip()\n                    if part.lower().startswith(\"charset=\"):\n                        charset = part.split(\"=\", 1)[1].strip().strip(\"\\\"'\")\n")],
   "E9:client.protocol:GeminiClientProtocol.connection_lost:charset-fixed-position")
 M("C19", "server-strips-received-line", "breaking",
@@ -1008,3 +1008,15 @@ M("C08", "leading-blank-check-dropped", "breaking",
   "V2:utils.url:parse_url:accepts:a leading")
 M("C08", "benign-leading-check-by-lstrip", "benign",
   [(UU, "parse_url", "    if url[0] <= \" \":\n", "    if url[:1].isspace() or url[0] < \" \":\n")])
+_GUARD = "        if not re.fullmatch(r\"[0-9]{2}\", parts[0]):\n            self._set_error(ValueError(f\"Invalid status code: {parts[0]}\"))\n            return\n"
+M("C13", "status-digit-guard-dropped", "breaking",
+  [(CP, "GeminiClientProtocol._parse_header", _GUARD, "")],
+  "E10:client.protocol:GeminiClientProtocol._parse_header:status-int-lenient")
+M("C13", "status-digit-guard-unicode-digits", "breaking",
+  [(CP, "TitanClientProtocol._parse_header", "        if not re.fullmatch(r\"[0-9]{2}\", parts[0]):\n", "        if not parts[0].isdigit():\n")],
+  "E10:client.protocol:TitanClientProtocol._parse_header:status-int-lenient")
+M("C13", "benign-status-guard-isascii-isdigit", "benign",
+  [(CP, "GeminiClientProtocol._parse_header", "        if not re.fullmatch(r\"[0-9]{2}\", parts[0]):\n", "        if not (parts[0].isascii() and parts[0].isdigit() and len(parts[0]) == 2):\n")])
+M("C18", "status-digit-guard-dropped", "breaking",
+  [(CP, "GeminiClientProtocol._parse_header", _GUARD, "")],
+  "Z8:client.protocol:GeminiClientProtocol._parse_header:status-range")
